@@ -256,6 +256,7 @@ def source_boundaries(name, alpha, with_unicode=True):
         if not os.path.exists(path):
             continue
         src = open(path).read()
+        src = src.split("pub mod verif_hooks")[0]        # the hook module's own literals are not the shaper's
         if fn == "unicode.rs":
             src = src[:60000]
         for m in re.finditer(r"0x([0-9A-Fa-f]{3,6})\b", src):
@@ -275,6 +276,31 @@ def source_boundaries(name, alpha, with_unicode=True):
                 if h + c + d in aset:
                     out.add(h + c + d)
     return sorted(out)
+
+
+def tight_boundaries(name, alpha):
+    """the ends of the ranges the shaper's NAMED constants span: for every `const X_BASE = b` with a `const X_COUNT = n` in the
+    shaper's source b-1, b, b+1 and b+n-2 … b+n+1, and the neighbours of every other hex constant — a short list, so that each
+    class boundary is drawn often (the full `source_boundaries` set grows with every literal in the file)"""
+    import os, re
+    aset = set(alpha)
+    out = set()
+    for fn in SHAPER_SOURCES.get(name, []):
+        path = os.path.join(vlib.REPO, "src", "hb", fn)
+        if not os.path.exists(path):
+            continue
+        src = open(path).read().split("pub mod verif_hooks")[0]
+        consts = {}
+        for m in re.finditer(r"const\s+(\w+)\s*:\s*\w+\s*=\s*(0x[0-9A-Fa-f]+|\d+)\s*;", src):
+            consts[m.group(1)] = int(m.group(2), 0)
+        for k, b in consts.items():
+            if b < 0x80:
+                continue
+            out.update([b - 1, b, b + 1])
+            if k.endswith("_BASE") and k[:-5] + "_COUNT" in consts:
+                n = consts[k[:-5] + "_COUNT"]
+                out.update([b + n - 2, b + n - 1, b + n, b + n + 1])
+    return sorted(x for x in out if x in aset)
 
 
 def rand_string(r, alpha, marks, n, edge=None):
@@ -413,6 +439,7 @@ def conservation_search(ctx, shim, r, per_script, scripts=None):
         marks = [c for c in alpha if unicodedata.category(chr(c)).startswith("M")]
         edge = sorted(set(boundaries(alpha)) | set(source_boundaries(name, alpha)))
         src_edge = source_boundaries(name, alpha, with_unicode=False) or edge
+        tight = tight_boundaries(name, alpha) or src_edge
         marks_set = set(marks)
         non_marks = [c for c in alpha if c not in marks_set]
         # font variants: (dotted circle, glyphs for the selectors, cmap format 14 variation sequences)
@@ -422,20 +449,29 @@ def conservation_search(ctx, shim, r, per_script, scripts=None):
             fid = f"S{si}v{variant}"
             lines = [f"font {fid} {fontbuild.hexfont(rec)}"]
             cases = []
-            for _ in range(per_script if variant < 2 else per_script // 2):
+            # Hangul: every kind of syllable head followed by every tight class-boundary jamo, exhaustively (small), then random
+            forced_texts = []
+            if name == "hangul" and variant == 0:
+                heads = [[0x1100, 0x1161], [0x1112, 0x1175], [0xAC00], [0xAC1C], [0xAC01], [0xAC1B], [0x1100], [0x1161]]
+                forced_texts = [h + [e] + tail for h in heads for e in tight for tail in ([], [0x302E])]
+            for k_case in range(len(forced_texts) + (per_script if variant < 2 else per_script // 2)):
                 n = r.range(1, 8)
                 text = rand_string(r, alpha, marks, n, edge)
-                if name == "hangul" and r.chance(1, 3):
+                if k_case < len(forced_texts):
+                    text = list(forced_texts[k_case])
+                elif name == "hangul" and r.chance(1, 3):
                     # structured: a syllable head followed by a class-boundary jamo (composition arithmetic lives there)
                     lv = 0xAC00 + 28 * r.below(4)
                     head = r.choice([[0x1100 + r.below(19), 0x1161 + r.below(21)], [lv], [lv + r.range(1, 27)],
                                      [0x1100 + r.below(19)], [0x1100, 0x1161]])
-                    text = ([r.choice(alpha)] if r.chance(1, 3) else []) + head + [r.choice(src_edge)] + \
+                    text = ([r.choice(alpha)] if r.chance(1, 3) else []) + head + [r.choice(tight if r.chance(2, 3) else src_edge)] + \
                            ([r.choice([0x302E, 0x302F])] if r.chance(1, 4) else [])
                 mode = r.below(6)
                 flags = r.choice([0, 3, 0x10, 0x13])
                 removed_ok = hidden = False
                 with_vs = r.chance(1, 3) if variant < 2 else True
+                if k_case < len(forced_texts):
+                    with_vs = False; mode = 5
                 if with_vs:
                     # variation selectors are characters of the text like any other: kept (PRESERVE), each shown as the
                     # invisible glyph (default flags) or removed (REMOVE); a font without glyphs for them can only be
